@@ -262,7 +262,10 @@ class AppBench:
                     return
                 seen.append(("oc",))
                 oc_at.append(len(matched) + n_x[0])
-                req.observation.cancel()
+                try:
+                    req.observation.cancel()
+                except Exception:
+                    pass            # (raised into the application's own call: not judged at this level)
             only = loop.create_task(only_the_response())
         try:
             if sc.get("rc") is not None and sc["consumer"] in ("iter", "poll"):
@@ -279,7 +282,10 @@ class AppBench:
                 if sc.get("oc") == idx:
                     seen.append(("oc",))
                     oc_at.append(idx)
-                    req.observation.cancel()
+                    try:
+                        req.observation.cancel()
+                    except Exception:
+                        pass        # (raised into the application's own call: not judged at this level)
                     await turn(3)
                 if a is None:
                     break
